@@ -215,14 +215,14 @@ struct pipe_logger {
     struct aws_log_channel channel;
     struct aws_log_writer writer;
 };
-static struct pipe_logger s_pipe[2];
+static struct pipe_logger s_pipe[3];
 static bool s_have_noalloc;
 static struct aws_logger s_noalloc;
 static FILE *s_noalloc_file;
 
 static void s_reset(void) {
     aws_logger_set(NULL);
-    for (int i = 0; i < 2; ++i) {
+    for (int i = 0; i < 3; ++i) {
         if (s_pipe[i].have) {
             aws_logger_clean_up(&s_pipe[i].logger);
             aws_log_channel_clean_up(&s_pipe[i].channel);
@@ -243,15 +243,42 @@ static void s_reset(void) {
     s_frozen = false;
 }
 
+/* ---- a formatter that reports success but hands back no line (logger c) ---- */
+static int s_null_format(
+    struct aws_log_formatter *formatter,
+    struct aws_string **formatted_output,
+    enum aws_log_level level,
+    aws_log_subject_t subject,
+    const char *format,
+    va_list args) {
+    (void)formatter;
+    (void)level;
+    (void)subject;
+    (void)format;
+    (void)args;
+    *formatted_output = NULL;
+    return AWS_OP_SUCCESS;
+}
+static void s_null_format_clean_up(struct aws_log_formatter *formatter) {
+    (void)formatter;
+}
+static struct aws_log_formatter_vtable s_null_format_vtable = {.format = s_null_format, .clean_up = s_null_format_clean_up};
+
 static void s_init_pipe(int which, int level) {
     struct pipe_logger *p = &s_pipe[which];
     HC_CHECK(!p->have);
     struct aws_log_formatter_standard_options fo = {.date_format = AWS_DATE_FORMAT_ISO_8601};
-    HC_CHECK(aws_log_formatter_init_default(&p->formatter, hc_allocator(), &fo) == AWS_OP_SUCCESS);
+    if (which == 2) {
+        p->formatter.vtable = &s_null_format_vtable;
+        p->formatter.allocator = hc_allocator();
+        p->formatter.impl = NULL;
+    } else {
+        HC_CHECK(aws_log_formatter_init_default(&p->formatter, hc_allocator(), &fo) == AWS_OP_SUCCESS);
+    }
     p->writer.vtable = &s_rec_vtable;
     p->writer.allocator = hc_allocator();
     p->writer.impl = NULL;
-    if (which == 0) {
+    if (which != 1) {
         HC_CHECK(aws_log_channel_init_foreground(&p->channel, hc_allocator(), &p->writer) == AWS_OP_SUCCESS);
     } else {
         p->channel.vtable = &s_fail_vtable;
@@ -441,6 +468,82 @@ static void s_op_log(struct aws_logger *lg, bool is_file, char **t, int base) {
     }
 }
 
+/* number of open file descriptors of this process */
+#include <dirent.h>
+#include <unistd.h>
+static int s_open_fds(void) {
+    int n = 0;
+    DIR *d = opendir("/proc/self/fd");
+    if (!d) {
+        return -1;
+    }
+    while (readdir(d)) {
+        ++n;
+    }
+    closedir(d);
+    return n;
+}
+
+/* two logger lifetimes on one file NAME: 'w' = pipeline logger over the library's file writer opened by name
+ * (appends), 'n' = no-alloc logger opened by name (truncates); then the file is read back */
+static void s_op_filelog(char kind, int k, int level) {
+    char path[64];
+    snprintf(path, sizeof(path), "/tmp/verif_c14_filelog_%ld.log", (long)getpid());
+    remove(path);
+    int fds0 = s_open_fds();
+    for (int r = 0; r < 2; ++r) {
+        struct aws_logger lg;
+        struct aws_log_formatter formatter;
+        struct aws_log_channel channel;
+        struct aws_log_writer writer;
+        if (kind == 'w') {
+            struct aws_log_writer_file_options wo = {.filename = path, .file = NULL};
+            HC_CHECK(aws_log_writer_init_file(&writer, hc_allocator(), &wo) == AWS_OP_SUCCESS);
+            struct aws_log_formatter_standard_options fo = {.date_format = AWS_DATE_FORMAT_ISO_8601};
+            HC_CHECK(aws_log_formatter_init_default(&formatter, hc_allocator(), &fo) == AWS_OP_SUCCESS);
+            HC_CHECK(aws_log_channel_init_foreground(&channel, hc_allocator(), &writer) == AWS_OP_SUCCESS);
+            HC_CHECK(aws_logger_init_from_external(&lg, hc_allocator(), &formatter, &channel, &writer, AWS_LL_TRACE) == 0);
+        } else {
+            struct aws_logger_standard_options o = {.level = AWS_LL_TRACE, .filename = path, .file = NULL};
+            HC_CHECK(aws_logger_init_noalloc(&lg, hc_allocator(), &o) == AWS_OP_SUCCESS);
+        }
+        for (int j = 0; j < k; ++j) {
+            s_log_shaped(&lg, level, AWS_LS_COMMON_GENERAL, (size_t)(3 + j + 5 * r), 0, false);
+        }
+        aws_logger_clean_up(&lg);
+        if (kind == 'w') {
+            aws_log_channel_clean_up(&channel);
+            aws_log_formatter_clean_up(&formatter);
+            aws_log_writer_clean_up(&writer);
+        }
+    }
+    int fds1 = s_open_fds();
+    FILE *f = fopen(path, "rb");
+    size_t cap = 1 << 20, len = 0;
+    uint8_t *buf = malloc(cap);
+    if (f) {
+        len = fread(buf, 1, cap, f);
+        fclose(f);
+    }
+    remove(path);
+    size_t lines = 0;
+    for (size_t i = 0; i < len; ++i) {
+        lines += buf[i] == '\n';
+    }
+    printf("P filelog lines=%zu fds=%d\n", lines, fds1 - fds0);
+    size_t start = 0;
+    for (size_t i = 0; i < len; ++i) {
+        if (buf[i] == '\n') {
+            s_print_line(buf + start, i + 1 - start);
+            start = i + 1;
+        }
+    }
+    if (start < len) {
+        printf("P MONITOR file ends in a torn line of %zu bytes\n", len - start);
+    }
+    free(buf);
+}
+
 static char *g_t[HC_MAX_TOKS];
 static int g_n;
 static bool g_pending, g_eof;
@@ -466,6 +569,69 @@ static void *s_worker_main(void *arg) {
         if (false) {
         } else if (!strcmp(t[0], "subjects") && n >= 3) {
             s_op_subjects(t, n);
+        } else if (!strcmp(t[0], "unsubjects") && n == 2) {
+            size_t slot = hc_parse_size(t[1]);
+            if (slot == 0 || slot >= AWS_PACKAGE_SLOTS || slot >= MAX_SLOTS) {
+                printf("bad-op\n");
+                continue;
+            }
+            s_drop_list(slot);
+            printf("W unsubjects slot=%zu\n", slot);
+        } else if (!strcmp(t[0], "nologger") && n == 3) {
+            /* no logger installed (aws_logger_set(NULL) was the last word): nothing may reach any writer */
+            char *m = s_pattern(hc_parse_size(t[2]));
+            s_rec_clear();
+            int level = atoi(t[1]);
+            AWS_LOGF((enum aws_log_level)level, AWS_LS_COMMON_GENERAL, "%s", m);
+            struct aws_logger *cur = aws_logger_get();
+            printf("P nologger lines=%zu level=%d\n", s_nrec, (int)cur->vtable->get_log_level(cur, AWS_LS_COMMON_GENERAL));
+            free(m);
+        } else if (!strcmp(t[0], "strlevel") && n == 2) {
+            size_t len;
+            uint8_t *txt = hc_hex_decode(t[1], &len);
+            txt = realloc(txt, len + 1);
+            txt[len] = 0;
+            enum aws_log_level lvl = (enum aws_log_level)77;
+            aws_reset_error();
+            int rc = aws_string_to_log_level((const char *)txt, &lvl);
+            if (rc == AWS_OP_SUCCESS) {
+                printf("P strlevel rc=OK level=%d\n", (int)lvl);
+            } else {
+                printf("P strlevel rc=%s\n", hc_last_error_name());
+            }
+            free(txt);
+        } else if (!strcmp(t[0], "levelname") && n == 2) {
+            const char *name = NULL;
+            aws_reset_error();
+            int rc = aws_log_level_to_string((enum aws_log_level)atoi(t[1]), &name);
+            if (rc == AWS_OP_SUCCESS && name) {
+                printf("P levelname rc=OK ");
+                hc_put_hex((const uint8_t *)name, strlen(name));
+                printf("\n");
+            } else {
+                printf("P levelname rc=%s\n", hc_last_error_name());
+            }
+        } else if (!strcmp(t[0], "writerinit") && n == 2 && strlen(t[1]) == 1 && strchr("0123", t[1][0])) {
+            /* argument shapes of aws_log_writer_init_file: neither, name, FILE, both */
+            int k = t[1][0] - '0';
+            char path[64];
+            snprintf(path, sizeof(path), "/tmp/verif_c14_writerinit_%ld.log", (long)getpid());
+            int fds0 = s_open_fds();
+            FILE *f = (k & 2) ? tmpfile() : NULL;
+            struct aws_log_writer_file_options wo = {.filename = (k & 1) ? path : NULL, .file = f};
+            struct aws_log_writer w;
+            aws_reset_error();
+            int rc = aws_log_writer_init_file(&w, hc_allocator(), &wo);
+            if (rc == AWS_OP_SUCCESS) {
+                aws_log_writer_clean_up(&w);
+            }
+            if (f) {
+                fclose(f);
+            }
+            remove(path);
+            printf("P writerinit rc=%s fds=%d\n", hc_err(rc), s_open_fds() - fds0);
+        } else if (!strcmp(t[0], "filelog") && n == 4 && (t[1][0] == 'w' || t[1][0] == 'n') && !t[1][1]) {
+            s_op_filelog(t[1][0], atoi(t[2]), atoi(t[3]));
         } else if (!strcmp(t[0], "wfail") && n >= 2 && n - 1 <= MAXFAIL) {
             s_nwfail = 0;
             for (int i = 1; i < n; ++i) {
@@ -475,7 +641,7 @@ static void *s_worker_main(void *arg) {
             }
         } else if (!strcmp(t[0], "fmt") && n == 7) {
             s_op_fmt(t);
-        } else if (!strcmp(t[0], "init") && n == 3 && strlen(t[1]) == 1 && strchr("abn", t[1][0])) {
+        } else if (!strcmp(t[0], "init") && n == 3 && strlen(t[1]) == 1 && strchr("abcn", t[1][0])) {
             int level = atoi(t[2]);
             if (t[1][0] == 'n') {
                 if (s_have_noalloc) {
@@ -494,7 +660,7 @@ static void *s_worker_main(void *arg) {
                 }
                 s_init_pipe(t[1][0] - 'a', level);
             }
-        } else if (!strcmp(t[0], "setlevel") && n == 3 && strlen(t[1]) == 1 && strchr("abn", t[1][0])) {
+        } else if (!strcmp(t[0], "setlevel") && n == 3 && strlen(t[1]) == 1 && strchr("abcn", t[1][0])) {
             struct aws_logger *lg = t[1][0] == 'n' ? (s_have_noalloc ? &s_noalloc : NULL)
                                                    : (s_pipe[t[1][0] - 'a'].have ? &s_pipe[t[1][0] - 'a'].logger : NULL);
             if (!lg) {
@@ -503,7 +669,7 @@ static void *s_worker_main(void *arg) {
             }
             int rc = aws_logger_set_log_level(lg, (enum aws_log_level)atoi(t[2]));
             printf("P setlevel %s\n", hc_err(rc));
-        } else if (!strcmp(t[0], "pipe") && n == 8 && strlen(t[1]) == 1 && strchr("ab", t[1][0])) {
+        } else if (!strcmp(t[0], "pipe") && n == 8 && strlen(t[1]) == 1 && strchr("abc", t[1][0])) {
             if (!s_pipe[t[1][0] - 'a'].have) {
                 printf("bad-op\n");
                 continue;
